@@ -219,6 +219,129 @@ func (c *Ctx) convxRun() []*opsVerdict {
 			}
 		}
 	}
+	// every conversion hands out its own result object: two conversions of one value to one type never return
+	// the same variant (a shared result would change under the first caller's feet), Null target included
+	for _, manager := range managers {
+		h := c.newVxHarness(manager)
+		fn := c.lookupMethod(h.mgrT, "Convert")
+		v := &opsVerdict{key: fmt.Sprintf("variants.%s.Convert#distinct-results", manager)}
+		all = append(all, v)
+		if h.fault != "" || fn == nil {
+			v.undec = h.fault + " Convert missing"
+			continue
+		}
+		v.pos = c.Pos(fn.Pos())
+		for _, t1 := range []string{"Null", "Integer", "Boolean", "String"} {
+			for _, t2 := range types11 {
+				if t2 == t1 && t2 != "Null" || t2 == "Object" {
+					continue
+				}
+				v.runs++
+				var payload interface{} = int64(3)
+				switch t1 {
+				case "Boolean":
+					payload = true
+				case "String":
+					payload = lit("1")
+				}
+				src := h.variant(t1, payload)
+				r1, o1 := h.m.Call(fn, h.mgr, src, h.vtByNm[t2])
+				r2, o2 := h.m.Call(fn, h.mgr, src, h.vtByNm[t2])
+				tp1, ok1 := r1.(mTuple)
+				tp2, ok2 := r2.(mTuple)
+				if o1.kind != "ok" || o2.kind != "ok" || !ok1 || !ok2 {
+					continue // outcomes are judged cell by cell above
+				}
+				if _, isNil := tp1[0].(mNilT); isNil {
+					continue
+				}
+				if eq, known := h.m.equal(tp1[0], tp2[0]); known && eq && v.bad == "" {
+					v.bad = fmt.Sprintf("%s.Convert(%s, %s) called twice returns one and the same variant: results are shared between callers (filling one in place changes every later conversion)", manager, t1, t2)
+				}
+			}
+		}
+	}
+	// round trips on boundary values (concrete payloads): the widening conversions of the statement succeed
+	// for every value of the source type and converting back yields the original
+	{
+		manager := "TypeUnsafeVariantOperations"
+		h := c.newVxHarness(manager)
+		fn := c.lookupMethod(h.mgrT, "Convert")
+		v := &opsVerdict{key: "variants.Convert#round-trips-on-boundary-values"}
+		all = append(all, v)
+		if h.fault != "" || fn == nil {
+			v.undec = h.fault + " Convert missing"
+		} else {
+			v.pos = c.Pos(fn.Pos())
+			ints := []interface{}{int64(0), int64(1), int64(-1), int64(255), int64(256), int64(65536), int64(2147483647), int64(2147483648), int64(-2147483648), int64(-2147483649), int64(3000000000), int64(4294967296)}
+			big := []interface{}{int64(1) << 53, -(int64(1) << 53), int64(1) << 40}
+			chains := []struct {
+				t1, t2 string
+				vals   []interface{}
+			}{
+				{"Integer", "Long", append(append([]interface{}{}, ints...), big...)},
+				{"Long", "Integer", append(append([]interface{}{}, ints...), big...)},
+				{"Integer", "Double", append(append([]interface{}{}, ints...), big...)},
+				{"Long", "Double", append(append([]interface{}{}, ints...), big...)},
+				{"Float", "Double", []interface{}{float64(0), float64(1.5), float64(-0.25), float64(float32(0.1)), float64(float32(3.0e38)), float64(float32(1e-40))}},
+				{"Boolean", "Integer", []interface{}{true, false}},
+				{"Boolean", "Long", []interface{}{true, false}},
+				{"Integer", "TimeSpan", ints},
+				{"Long", "TimeSpan", ints},
+			}
+			for _, ch := range chains {
+				for _, val := range ch.vals {
+					v.runs++
+					where := fmt.Sprintf("%s %v -> %s -> %s", ch.t1, val, ch.t2, ch.t1)
+					src := h.variant(ch.t1, val)
+					want := h.payloadOf(src)
+					r1, o1 := h.m.Call(fn, h.mgr, src, h.vtByNm[ch.t2])
+					tp1, ok1 := r1.(mTuple)
+					switch {
+					case o1.kind == "panic":
+						if v.bad == "" {
+							v.bad = where + ": the first conversion panics: " + o1.why
+						}
+						continue
+					case o1.kind != "ok" || !ok1:
+						if v.undec == "" {
+							v.undec = where + ": " + o1.why
+						}
+						continue
+					}
+					if _, isNil := tp1[1].(mNilT); !isNil {
+						if v.bad == "" {
+							v.bad = fmt.Sprintf("%s: the conversion to %s fails with %s; the statement defines it for every %s value", where, ch.t2, errorCode(tp1[1]), ch.t1)
+						}
+						continue
+					}
+					r2, o2 := h.m.Call(fn, h.mgr, tp1[0], h.vtByNm[ch.t1])
+					tp2, ok2 := r2.(mTuple)
+					switch {
+					case o2.kind == "panic":
+						if v.bad == "" {
+							v.bad = where + ": converting back panics: " + o2.why
+						}
+						continue
+					case o2.kind != "ok" || !ok2:
+						if v.undec == "" {
+							v.undec = where + ": " + o2.why
+						}
+						continue
+					}
+					if _, isNil := tp2[1].(mNilT); !isNil {
+						if v.bad == "" {
+							v.bad = fmt.Sprintf("%s: converting back fails with %s; the round trip is lossless and defined there", where, errorCode(tp2[1]))
+						}
+						continue
+					}
+					if got := h.payloadOf(tp2[0]); got != want && v.bad == "" {
+						v.bad = fmt.Sprintf("%s: the round trip yields %s; the original value is %s", where, got, want)
+					}
+				}
+			}
+		}
+	}
 	wg.Add(1)
 	run("TypeUnsafeVariantOperations") // first: its cells are the reference for the agreement clause
 	wg.Add(1)
@@ -231,7 +354,7 @@ func (c *Ctx) convxRun() []*opsVerdict {
 
 func init() {
 	register(&Rule{ID: "CONV.model", Floor: 24,
-		Doc: "Convert of both managers evaluated abstractly for every source × target type on a symbolic payload: requested-type tag, identity for own type / Object, the statement's numeric and temporal conventions as host expressions, the type-safe whitelist and its agreement with the type-unsafe manager, errors elsewhere",
+		Doc: "Convert of both managers evaluated abstractly for every source × target type on a symbolic payload: requested-type tag, identity for own type / Object, the statement's numeric and temporal conventions as host expressions, the type-safe whitelist and its agreement with the type-unsafe manager, errors elsewhere; every conversion returns its own result object; round trips integer<->long<->double, float->double, boolean<->numeric, integer/long<->time span on boundary constants (0, ±1, around 2^8, 2^16, 2^31, 2^32, ±2^53) succeed and return the original",
 		Run: func(c *Ctx) []*Obligation {
 			o := newObl("CONV.model")
 			for _, v := range c.convxRun() {
